@@ -171,13 +171,16 @@ def run(h, case):
         pts2 = h.array([[a, b] for a, b in zip(X, Y2)])
         call2, _ = _calls(h.L, h, pts2, X, Y2, n, t)[case['fn']]
         try:
-            call2()
+            h.fresh_state()
+            ref2 = call2()                  # the other curve evaluated from a fresh state
+            h.fresh_state()
+            call()
+            got2 = call2()                  # ... and after a call on the first curve
         except core.PathAbort:
             raise
         except Exception:
-            pass          # the intervening call is only there for its side effects
-        r3 = call()
-        h.prove(same(h, r1, r3), 'the result does not depend on calls made before (no state kept between calls)')
+            ref2 = got2 = None              # exceptions of degenerate slices are other properties' business
+        h.prove(same(h, got2, ref2), 'the result does not depend on calls made before (no state kept between calls)')
     h.prove(not h.writes(), 'array arguments are left unmodified')
     for w, before in watched:
         h.prove(len(w) == len(before) and all((a is b) or bool(same(h, a, b)) for a, b in zip(w, before)), 'list arguments are left unmodified')
